@@ -17,6 +17,18 @@ def bounds(run):
             dict(Vals=tla_set(range(1, 11)), MaxMult=1, MaxSize=10, CloneMax=3, CloneOps=2, label="10 distinct values")]
 
 
+def xlate(o):
+    """Model call names (AVL.tla has the original and one clone) -> driver calls on trees 1..3."""
+    o = dict(o)
+    if o["op"] in ("Add2", "Remove2"):
+        o.update(op=o["op"][:-1], w=2)
+    elif o["op"] == "Clone":
+        o.update(src=1, dst=2, w=1)
+    else:
+        o["w"] = 1
+    return o
+
+
 def tour_plans(run):
     plans, tours = [], []
     for b in bounds(run):
@@ -30,7 +42,7 @@ def tour_plans(run):
         tours.append(st)
         for i, p in enumerate(paths):
             ty = ("int", "int", "string", "struct")[i % 4]
-            plans.append([dict(op="Reset", nv=nv, ty=ty)] + [e["op"] for e in p])
+            plans.append([dict(op="Reset", nv=nv, ty=ty)] + [xlate(e["op"]) for e in p])
     return plans, tours
 
 
@@ -42,7 +54,7 @@ def gen_plans(run):
     def mk(n, seq, step):
         p = [dict(op="Reset", nv=n, ty="int")]
         for i, (op, v) in enumerate(seq):
-            p.append(dict(op=op, arg=v, full=((i + 1) % step == 0 or i == len(seq) - 1)))
+            p.append(dict(op=op, arg=v, w=1, full=((i + 1) % step == 0 or i == len(seq) - 1)))
         return p
     for n in sizes:
         step = 1 if n <= 63 else max(1, n // 16)
@@ -69,6 +81,39 @@ def gen_plans(run):
                 seq.append(("Add", v))
                 present.append(v)
         plans.append(mk(n, seq, 1 if n <= 64 else 8))
+    # three trees that share everything (two clones taken before any of them is modified), then every order of modifying two of them
+    import itertools
+    for src3 in (1, 2):
+        for first, second in itertools.permutations((1, 2, 3), 2):
+            for o1, o2 in itertools.product(("Add", "Remove"), repeat=2):
+                p = [dict(op="Reset", nv=9, ty="int")] + [dict(op="Add", arg=v, w=1) for v in (4, 2, 6, 1, 3, 5, 7)]
+                p += [dict(op="Clone", arg=0, src=1, dst=2, w=1), dict(op="Clone", arg=0, src=src3, dst=3, w=1)]
+                p += [dict(op=o1, arg=8 if o1 == "Add" else 4, w=first), dict(op=o2, arg=9 if o2 == "Add" else 2, w=second),
+                      dict(op="Remove", arg=4, w=second), dict(op="Add", arg=4, w=first)]
+                plans.append(p)
+    # three trees: clones of clones, every tree mutated after every other one was cloned from it (shared-state defects need >= 3)
+    for j in range(10 if run.quick() else 150):
+        nvv = 9
+        p = [dict(op="Reset", nv=nvv, ty=("int", "string", "struct")[j % 3])]
+        live = [1]
+        for i in range(run.rng.randint(12, 40)):
+            r = run.rng.random()
+            if r < 0.15 and len(live) < 3 or (i == 5 and len(live) == 1) or (i == 9 and len(live) == 2):
+                dst = 2 if 2 not in live else 3
+                p.append(dict(op="Clone", arg=0, src=run.rng.choice(live), dst=dst, w=1))
+                live.append(dst)
+            elif r < 0.2:
+                p.append(dict(op="Clone", arg=0, src=run.rng.choice(live), dst=run.rng.choice([2, 3]), w=1))
+                live = sorted(set(live + [p[-1]["dst"]]))
+                if p[-1]["src"] == p[-1]["dst"]:
+                    p.pop()
+            elif r < 0.65:
+                p.append(dict(op="Add", arg=run.rng.randint(1, nvv), w=run.rng.choice(live)))
+            elif r < 0.95:
+                p.append(dict(op="Remove", arg=run.rng.randint(1, nvv), w=run.rng.choice(live)))
+            else:
+                p.append(dict(op="Clear", arg=0, w=run.rng.choice(live)))
+        plans.append(p)
     return plans
 
 
@@ -89,7 +134,7 @@ def run_all(run, prop, clauses):
                         "element types int/string/struct, plus generated histories (ascending, descending, zig-zag, organ-pipe, "
                         "fill-then-delete, random) up to n=%d; non-trivial = >= 2 calls" % (255 if run.quick() else 2047))
     small = [s for s in segs if 4 <= len(s) <= 7]
-    run.cov["samples"] = [[{k: (v if k not in ("a", "b") else {"pre": v["pre"], "ino": v["ino"], "len": v["len"]}) for k, v in e.items()
+    run.cov["samples"] = [[{k: (v if k != "t" else [{"pre": o["pre"], "ino": o["ino"], "len": o["len"]} for o in v[:1]]) for k, v in e.items()
                             if k not in ("xpre", "xpre2")} for e in (small[0] if small else segs[0])]]
     run.assumptions += ["comparators are total orders consistent with == (int <, string <, struct by key with pad derived from key)",
                         "with duplicate values the traversals do not determine the tree uniquely: a trace is accepted if SOME binary "
